@@ -82,6 +82,15 @@ struct Env {
     }
 };
 
+static void collectVars(Logic & logic, PTRef t, std::set<uint32_t> & seen, std::vector<PTRef> & vars) {
+    if (!seen.insert(t.x).second) return;
+    if (logic.isVar(t)) { vars.push_back(t); return; }
+    Pterm const & p = logic.getPterm(t);
+    std::vector<PTRef> ch;
+    for (PTRef c : p) ch.push_back(c);
+    for (PTRef c : ch) collectVars(logic, c, seen, vars);
+}
+
 static std::string join(std::vector<FastRational> const & v) {
     std::string s;
     for (size_t i = 0; i < v.size(); i++) s += (i ? " " : "") + str(v[i]);
@@ -160,6 +169,64 @@ int main() {
                 try { out = std::to_string((w[0] == "A" ? a + b : a - b).value()); }
                 catch (std::overflow_error const &) { out = "none"; }
                 catch (std::underflow_error const &) { out = "none"; }
+            } else if (w.size() >= 3 && w[0] == "Y") {
+                // Y k:n:d ... | x0 x1 ...   several div/mod applications handed to ONE DivModConfig / DivModRewriter
+                std::vector<std::string> apps; std::vector<std::string> xv;
+                size_t i = 1;
+                for (; i < w.size() && w[i] != "|"; i++) apps.push_back(w[i]);
+                for (i++; i < w.size(); i++) xv.push_back(w[i]);
+                Model::Evaluation ev;
+                for (size_t k = 0; k < xv.size(); k++) ev.insert({env->var(k), logic.mkIntConst(num(xv[k]))});
+                std::vector<PTRef> terms, qs;
+                for (size_t k = 0; k < apps.size(); k++) {
+                    auto a = apps[k];
+                    auto p1 = a.find(':'), p2 = a.find(':', p1 + 1);
+                    PTRef x = env->var(std::stoul(a.substr(p1 + 1, p2 - p1 - 1)));
+                    PTRef d = logic.mkIntConst(num(a.substr(p2 + 1)));
+                    terms.push_back(a[0] == 'd' ? logic.mkIntDiv(x, d) : logic.mkMod(x, d));
+                    qs.push_back(logic.mkIntVar(("q" + std::to_string(k)).c_str()));
+                }
+                // (1) the per-application rewrite with its cache, in the order given
+                DivModConfig cfg(logic);
+                std::vector<std::string> ids;
+                std::string pattern;
+                vec<PTRef> conj1, conjF;
+                for (size_t k = 0; k < terms.size(); k++) {
+                    PTRef r = cfg.rewrite(terms[k]);
+                    std::string nm = logic.getSymName(r);
+                    bool isDiv = nm.compare(0, DivModConfig::divPrefix.size(), DivModConfig::divPrefix) == 0;
+                    std::string id = nm.substr(isDiv ? DivModConfig::divPrefix.size() : DivModConfig::modPrefix.size());
+                    size_t idx = std::find(ids.begin(), ids.end(), id) - ids.begin();
+                    if (idx == ids.size()) ids.push_back(id);
+                    pattern += (k ? " p" : "p") + std::to_string(idx) + (isDiv ? "d" : "m");
+                    conj1.push(logic.mkEq(qs[k], r));
+                    conjF.push(logic.mkEq(qs[k], terms[k]));
+                }
+                vec<PTRef> defs;
+                cfg.getDefinitions(defs);
+                int ndefs = defs.size();
+                for (PTRef dft : defs) conj1.push(dft);
+                PTRef g1 = logic.mkAnd(conj1);
+                // (2) the whole formula through DivModRewriter
+                PTRef g2 = DivModRewriter(logic).rewrite(logic.mkAnd(conjF));
+                // values: q_k := value of application k; auxiliary variables := value of the term they stand for
+                {
+                    Model m0(logic, ev);
+                    for (size_t k = 0; k < terms.size(); k++) ev.insert({qs[k], m0.evaluate(terms[k])});
+                    std::set<uint32_t> seen; std::vector<PTRef> vars;
+                    collectVars(logic, g1, seen, vars);
+                    collectVars(logic, g2, seen, vars);
+                    for (PTRef v : vars) {
+                        std::string nm = logic.getSymName(v);
+                        if (nm.compare(0, DivModConfig::divPrefix.size(), DivModConfig::divPrefix) == 0)
+                            ev.insert({v, m0.evaluate(DivModConfig::getDivTermFor(logic, v))});
+                        else if (nm.compare(0, DivModConfig::modPrefix.size(), DivModConfig::modPrefix) == 0)
+                            ev.insert({v, m0.evaluate(DivModConfig::getModTermFor(logic, v))});
+                    }
+                }
+                Model m(logic, ev);
+                auto tv = [&](PTRef t) { PTRef r = m.evaluate(t); return r == logic.getTerm_true() ? "1" : r == logic.getTerm_false() ? "0" : "open"; };
+                out = pattern + " ; " + std::to_string(ndefs) + " ; " + tv(g1) + " " + tv(g2);
             } else if (w.size() == 5 && w[0] == "X") {
                 // (and (= qv (div x d)) (= rv (mod x d))) after DivModRewriter, evaluated at x=n, qv=.div=q, rv=.mod=r
                 PTRef x = env->var(0), qv = env->var(1), rv = env->var(2);
